@@ -385,6 +385,16 @@ def classify_shanks(mp, desc, f, p):
     return None
 
 
+def finite_cond_ok(S, a, b, oracle, lim=256):
+    """(N+1) * sum |t_k| <= lim * |S| for a finite range (terms are added one by one at the working precision)"""
+    tot = F(0)
+    for k in range(a, b + 1):
+        t = S.term_exact(k)
+        tot += Q.isqrt_floor(Q.cabs2(t)) + F(1, 1 << 64) if isinstance(t, tuple) else abs(t)
+    sv = Q.isqrt_floor(Q.cabs2(oracle)) if isinstance(oracle, tuple) else abs(oracle)
+    return (b - a + 2) * tot <= lim * sv
+
+
 def run_nsum(mp, rec, desc):
     p = desc['prec']
     rngs = [(rng_pt(a), rng_pt(b)) for a, b in desc['range']]
@@ -413,6 +423,8 @@ def run_nsum(mp, rec, desc):
                 inside = False; why.append('levin variant %s not listed as suitable for class %s' % (lv, cls))
         if not vmag_ok(oracle, p):
             inside = False; why.append('|V| < 2^-8')
+        if finite and b >= a and not finite_cond_ok(S, a, b, oracle):
+            inside = False; why.append('finite sum with cancellation: (N+1) * sum|t_k| / |S| > 2^8 (only "up to rounding" is claimed)')
         nontriv = (not finite) or (b - a >= 1)
         label = 'nsum/%s/%s/%s' % (cls, method or 'default', 'finite' if finite else ('two-sided' if two else ('mirrored' if mir else 'to-inf')))
     else:
@@ -442,9 +454,11 @@ def run_nsum(mp, rec, desc):
             oracle = Q.RefOracle(fn)
         inside, why = True, []
         # documented multi-dimensional use: geometric / finite factors with the default method
-        for S, (a, b) in zip(Ss, rngs):
+        for S, (a, b), o in zip(Ss, rngs, orcs):
             if (a == '-inf' or b == '+inf') and S.cls() not in ('geom', 'geom-fast', 'geom-alt'):
                 inside = False; why.append('multidimensional infinite factor of class %s' % S.cls())
+            if a != '-inf' and b != '+inf' and b >= a and not finite_cond_ok(S, a, b, o, lim=16):
+                inside = False; why.append('finite factor with cancellation')
         if method not in (None, 'r+s', 's', 'shanks'):
             inside = False; why.append('method %s in several dimensions' % method)
         if not vmag_ok(oracle, p):
@@ -485,31 +499,13 @@ def classify_nsum(mp, desc, f, p, units):
     kw = dict(desc.get('kw', {}))
     if desc.get('method'):
         kw['method'] = desc['method']
+    old = mp.prec
     # 1. Shanks: converged column, rounding noise amplified
     if method in ('r+s', 's', 'shanks', 'r+s+e'):
         k = classify_shanks(mp, desc, f, p)
         if k:
             return k, round(min(units, 1e6), 1)
-    # 2. did adaptive_extrapolation give up at maxterms and hand back its best estimate without saying so?
-    old = mp.prec
-    try:
-        mp.prec = p
-        try:
-            mp.nsum(f, *[_ival(mp, *r) for r in desc['range']], strict=True, **kw)
-            gave_up = False
-        except mp.NoConvergence:
-            gave_up = True
-        except Exception:
-            gave_up = False
-    finally:
-        mp.prec = old
-    if gave_up:
-        # finite partition fixed a priori: method x series class x precision bucket (maxterms = 10*dps is smallest at low precision)
-        canon = {'r': 'richardson', 's': 'shanks', 'l': 'levin', 'a': 'alternating', 'e': 'euler-maclaurin', 'd': 'direct'}
-        dps = __import__('mpmath').libmp.prec_to_dps(p)     # maxterms defaults to 10*dps; 53 bits (the default precision) is dps 15
-        return 'C27/nsum/not-converged-at-maxterms-best-estimate-returned-silently/%s/%s/%s' % (
-            canon.get(method, method), desc['series']['cls'], 'dps<=14' if dps <= 14 else 'dps>=15'), round(min(units, 1e6), 1)
-    # 3. Euler-Maclaurin: is the tail integral (quad over [N, inf], error estimate accepted) itself off?
+    # 2. Euler-Maclaurin: is the tail integral (quad over [N, inf], error estimate accepted) itself off?
     sd = desc['series']
     if method in ('e', 'euler-maclaurin', 'r+s+e') and sd['kind'] == 'ratl' and sd['form'] == 'hz' and not sd.get('alt'):
         a = desc['range'][0][0]
@@ -529,6 +525,25 @@ def classify_nsum(mp, desc, f, p, units):
             vd, u2, _, _ = Q.decide(q, orc, p, TOL, rel=False)
             if vd == 'violated':
                 return 'C27/nsum/euler-maclaurin/tail-integral-quad-inaccurate-on-algebraic-decay', round(units / p, 3)
+    # 3. did adaptive_extrapolation give up at maxterms and hand back its best estimate without saying so?
+    old = mp.prec
+    try:
+        mp.prec = p
+        try:
+            mp.nsum(f, *[_ival(mp, *r) for r in desc['range']], strict=True, **kw)
+            gave_up = False
+        except mp.NoConvergence:
+            gave_up = True
+        except Exception:
+            gave_up = False
+    finally:
+        mp.prec = old
+    if gave_up:
+        # finite partition fixed a priori: method x series class x precision bucket (maxterms = 10*dps is smallest at low precision)
+        canon = {'r': 'richardson', 's': 'shanks', 'l': 'levin', 'a': 'alternating', 'e': 'euler-maclaurin', 'd': 'direct'}
+        dps = __import__('mpmath').libmp.prec_to_dps(p)     # maxterms defaults to 10*dps; 53 bits (the default precision) is dps 15
+        return 'C27/nsum/not-converged-at-maxterms-best-estimate-returned-silently/%s/%s/%s' % (
+            canon.get(method, method), desc['series']['cls'], 'dps<=14' if dps <= 14 else 'dps>=15'), round(min(units, 1e6), 1)
     return None, None
 
 
@@ -627,6 +642,30 @@ def run_nprod(mp, rec, desc):
     finally:
         mp.prec = old
     jd = dict(desc, sub=d['form'] + '/' + kw.get('method', 'default'))
+    if inside and (b == '+inf' or a == '-inf') and 'e' not in kw.get('method', '') and not kw.get('nsum'):
+        verdict, units, tier, expect = Q.decide(v, oracle, p, TOL, rel=True)
+        if verdict == 'violated':
+            try:
+                mp.prec = p
+                try:
+                    mp.nprod(f, _ival(mp, a, b), strict=True, **kw)
+                    gave_up = False
+                except mp.NoConvergence:
+                    gave_up = True
+                except Exception:
+                    gave_up = False
+            finally:
+                mp.prec = old
+            if gave_up:
+                dps = __import__('mpmath').libmp.prec_to_dps(p)
+                canon = {'r': 'richardson', 's': 'shanks'}
+                m = kw.get('method', 'r+s')
+                rec.case(repr(jd), True, cls=label + '/in')
+                rec.event('decided by: ' + tier)
+                rec.violation('C27/nprod/not-converged-at-maxterms-best-estimate-returned-silently/%s/%s/%s' % (
+                    canon.get(m, m), cls, 'dps<=14' if dps <= 14 else 'dps>=15'), 'nprod off by 2^%.1f * 2^-p * |V|' % units,
+                    dict(jd, why_outside=[]), observed=Q.show(v), expected=expect, severity=round(units, 1))
+                return
     if 'e' in kw.get('method', '') and b == '+inf' and inside:
         # mechanism: nprod(method with 'e') sums log(f(k)) by Euler-Maclaurin; in the tail integral f(x) rounds to 1 for
         # x > 2^(wp/2) and log(f(x)) = 0 (the TODO in nprod): the key is the code path, severity = fraction of p lost
@@ -1178,6 +1217,9 @@ WITNESSES = [
     {'kind': 'nprod', 'prod': {'form': 'wallis'}, 'range': [1, '+inf'], 'prec': 100, 'kw': {'method': 'e'}},
     {'kind': 'nsum', 'series': {'kind': 'ratl', 'cls': 'ratl', 'form': 'hz', 'c': [-11, -2], 'beta': [4, -1], 's': 3}, 'range': [[3, '+inf']],
      'prec': 30, 'method': 'richardson'},
+    {'kind': 'nprod', 'prod': {'form': 'wallis'}, 'range': [5, '+inf'], 'prec': 30, 'kw': {}},
+    {'kind': 'direct', 'sub': 'levin', 'series': {'kind': 'geom', 'cls': 'geom', 'c': [10, -2], 'q': [16, -5]}, 'start': 1, 'lmethod': 'levin',
+     'variant': 'u', 'how': 'step_psum', 'prec': 53},
     {'kind': 'nsum', 'series': {'kind': 'ratl', 'cls': 'ratl', 'form': 'hz', 'c': [15, -2], 'beta': [3, -1], 's': 2}, 'range': [[10, '+inf']],
      'prec': 46, 'method': 'levin', 'kw': {'levin_variant': 'u'}},
 ]
